@@ -610,6 +610,61 @@ def gen_prog_O4(rng):
     return {"flows": flows, "family": "O4", "ordered": True}
 
 
+def gen_prog_R(rng):
+    """family R: a recursive flow; every level assigns the same-named local before the inner call
+    and echoes it afterwards.  The direct oracle applies (privacy between instances of one flow)."""
+    depth = rng.randint(1, 4)
+    lit = rand_value(rng, 0, False)
+    v_main = rand_value(rng, 1)
+    want_ret = rng.random() < 0.7
+    extra = rng.random() < 0.5
+    params = [["n", None]] + ([["tag", ["lit", rand_value(rng, 1)]]] if extra else [])
+    inner_args = [["pos", ["sub1", ["var", "n"]]]] + ([["named", "tag", ["var", "loc"]]] if extra and rng.random() < 0.5 else [])
+    rb = [["assign", "loc", ["list", [["var", "n"], ["lit", lit]]]],
+          ["ifpos", "n", [["call", "await", "classic", "rec", inner_args, "sub" if want_ret else None]]],
+          echo_of(1, ["n", "loc"]),
+          ["return", ["list", [["var", "n"], ["var", "loc"]]]]]
+    rec = {"name": "rec", "params": params, "rets": [], "body": rb}
+    mbody = [["assign", "loc", ["lit", v_main]], ["assign", "n", ["lit", rand_value(rng, 0)]],
+             ["call", "await", "classic", "rec", [["pos", ["lit", depth]]], "x" if want_ret else None],
+             echo_of(2, ["loc", "n", "x"]), ["echo", 99, []], ["wait"]]
+    main = {"name": "main", "params": [], "rets": [], "body": mbody}
+    return {"flows": [rec, main], "family": "R", "ordered": True, "depth": depth, "lit": lit}
+
+
+def oracle_prog_R(prog, res):
+    """recursive instances: level k echoes n = k and its own loc = [k, lit] AFTER the inner levels
+    ran; main's locals are untouched; the returned value reaches main's x; final contexts keep them"""
+    if prog.get("family") != "R":
+        return None
+    d, lit = prog["depth"], prog["lit"]
+    rec, main = prog["flows"]
+    v_main = main["body"][0][2][1]
+    n_main = main["body"][1][2][1]
+    want_ret = main["body"][2][5] is not None
+    if res.get("outcome") != 2:
+        return ("recursive-call-does-not-complete", f"main did not reach its end: outcome={res.get('outcome')}")
+    rec_echoes = [dict(items) for t, items in res["echoes"] if t == 1]
+    if len(rec_echoes) != d + 1:
+        return ("recursive-echo-count", f"{len(rec_echoes)} echoes from rec, expected {d + 1}")
+    for k, e in enumerate(rec_echoes):
+        if not same_value(e.get("n"), k):
+            return ("recursive-instance-parameter-overwritten", f"level {k} echoes n={e.get('n')!r} after its inner call")
+        if not same_value(e.get("loc"), [k, lit]):
+            return ("recursive-instance-local-overwritten", f"level {k} echoes loc={e.get('loc')!r} after its inner call, its own assignment was {[k, lit]!r}")
+    m = [dict(items) for t, items in res["echoes"] if t == 2]
+    if not m or not same_value(m[0].get("loc"), v_main) or not same_value(m[0].get("n"), n_main):
+        return ("e2e-caller-local-changed-by-callee", f"main echoes {m[0] if m else None!r}, its own loc={v_main!r} n={n_main!r}")
+    if want_ret and not same_value(m[0].get("x"), [d, [d, lit]]):
+        return ("e2e-return-value-not-assigned", f"main got x={m[0].get('x')!r}, rec returned {[d, [d, lit]]!r}")
+    fin = [dict(items) for fid, items in res["finals"] if fid == "rec"]
+    for j, c in enumerate(fin):
+        k = d - j
+        if not same_value(c.get("loc"), [k, lit]) or not same_value(c.get("n"), k):
+            return ("instance-final-context-changed-by-other-instance", f"final context of rec level {k}: n={c.get('n')!r} loc={c.get('loc')!r}")
+    return None
+
+
 def _has_calls(fl):
     return any(st[0] in ("call", "ifpos") for st in fl["body"])
 
@@ -962,6 +1017,7 @@ def run(tier, seed, replay=None):
     n_A = 700 if tier == "quick" else 7000
     n_B = 500 if tier == "quick" else 5000
     n_O4 = 30 if tier == "quick" else 200
+    n_R = 80 if tier == "quick" else 800
 
     # ---- cases: corpus first, then replay, then generated
     bind_cases = []   # (sig, ev)
@@ -977,7 +1033,7 @@ def run(tier, seed, replay=None):
     if replay:
         d = json.load(open(replay))
         stored.append(d.get("replay", d))
-        n_sig = n_A = n_B = n_O4 = 0
+        n_sig = n_A = n_B = n_O4 = n_R = 0
     for d in stored:
         if d.get("kind") == "bind":
             bind_cases.append((d["sig"], d["ev"]))
@@ -993,6 +1049,8 @@ def run(tier, seed, replay=None):
         prog_cases.append(gen_prog_B(rng))
     for _ in range(n_O4):
         prog_cases.append(gen_prog_O4(rng))
+    for _ in range(n_R):
+        prog_cases.append(gen_prog_R(rng))
 
     # ---- run the implementation
     jobs = []
@@ -1120,7 +1178,7 @@ def run(tier, seed, replay=None):
         if prog.get("family") == "A" and prog.get("kind") == "unknown" and oc == 3:
             obs["O3_unknown_named_argument_ignored"] += 1
             obs_examples.setdefault("O3_unknown_named_argument_ignored", {"program": res["src"], "echoes": res["echoes"]})
-        v = oracle_prog_A(prog, res)
+        v = oracle_prog_A(prog, res) or oracle_prog_R(prog, res)
         if v:
             out.findings.append(C.Finding(v[0], v[1], {"kind": "prog", "prog": prog, "source": res["src"],
                                                        "impl": {k: res.get(k) for k in ("outcome", "echoes", "finals", "globals", "msg")}}))
